@@ -297,6 +297,7 @@ func (c *Ctx) finish(verifDir string, wall float64, seed int64, evidencePath str
 			cov["trusted_base"] = []string{"go/packages + go/types + go/ssa (golang.org/x/tools v0.29.0)", "the rule implementations in /verif/checker", "sync.Mutex semantics"}
 		}
 	}
+	c.assume("go/packages, go/types and go/ssa (golang.org/x/tools v0.29.0) represent /repo's source faithfully; non-test files of the default build configuration are what is analysed")
 	ev := map[string]any{
 		"property_id": c.Prop,
 		"tier":        c.Tier,
